@@ -20,6 +20,11 @@ fn check(prop: &str, tier: Tier) {
     match prop {
         "C09" | "C10" | "C11" | "C12" => check_dom(prop, tier),
         "C18" => check_c18(tier),
+        "C17" => {
+            let run = Run::new("C17", tier, "model_checking");
+            let cov = vh::c17::check(&run);
+            run.finish(cov, &["finite boundary alphabets per Variant type; 'all 2^128 Refs' and 'all UniqueIds' are covered over boundary values only", "JSON cannot carry non-finite floats: values containing them are exercised through the binary encodings only"]);
+        }
         "C14" => {
             let run = Run::new("C14", tier, "model_checking");
             let cov = vh::c14::check(&run);
@@ -325,6 +330,14 @@ fn replay(prop: &str, file: &std::path::Path) {
                 println!("observed [{}]: {}", k, w);
             }
             println!("REPLAY property=C01 outcome={}", if vs.is_empty() { "holds" } else { "violation" });
+            std::process::exit(if vs.is_empty() { 0 } else { 1 });
+        }
+        "C17" => {
+            let vs = vh::c17::replay(case);
+            for (k, w) in &vs {
+                println!("observed [{}]: {}", k, w);
+            }
+            println!("REPLAY property=C17 outcome={}", if vs.is_empty() { "holds" } else { "violation" });
             std::process::exit(if vs.is_empty() { 0 } else { 1 });
         }
         "C14" => {
